@@ -157,6 +157,11 @@ func (r *Run) c11Burst(i int) {
 		port int
 		raw  []byte
 	}
+	type ihRec struct {
+		ih  [20]byte
+		eps map[string]bool
+	}
+	var known []ihRec
 	for round := 0; round < 6; round++ {
 		ih := r.randID()
 		var as []ann
@@ -206,6 +211,66 @@ func (r *Run) c11Burst(i int) {
 		if accepted == k && missing > 0 {
 			sc.viol("C11", fmt.Sprintf("%d announces for a new infohash were acknowledged, %d of their endpoints are not returned afterwards", k, missing))
 			return
+		}
+		known = append(known, ihRec{ih, got})
+		// get_peers for several infohashes delivered back to back: replies are encoded on their own goroutines
+		// after the handler has moved on; each must carry the endpoints of ITS infohash only
+		if len(known) >= 2 {
+			type ask struct {
+				src *net.UDPAddr
+				t   string
+				rec ihRec
+			}
+			var asks []ask
+			for j := 0; j < 2*len(known); j++ {
+				rec := known[j%len(known)]
+				a := ask{udp(net.IP{198, 19, byte(round), byte(j + 1)}, 3000+j), fmt.Sprintf("g%d.%d", round, j), rec}
+				asks = append(asks, a)
+			}
+			sc.conn.waitIdle(time.Second)
+			w1 := sc.conn.numWrites()
+			for _, a := range asks {
+				q := sc.mkQuery("get_peers", r.randID(), a.rec.ih)
+				q.t, q.ro, q.want, q.target = []byte(a.t), true, nil, nil
+				sc.conn.inject(q.bval().enc(), a.src)
+			}
+			sc.events = []string{fmt.Sprintf("%d get_peers for %d infohashes with stored peers delivered back to back", len(asks), len(known))}
+			if !sc.conn.waitWrites(w1+len(asks), 5*time.Second) {
+				sc.viol("C11", "get_peers not answered with a response")
+				return
+			}
+			for _, w := range sc.conn.writes()[w1:] {
+				d := parseDgram(w)
+				if !d.ok || d.y != "r" {
+					continue
+				}
+				for _, a := range asks {
+					if string(d.t) != a.t || !sameUDP(w.Addr, a.src) {
+						continue
+					}
+					vals := d.v.get("r").get("values")
+					n := 0
+					if vals != nil && vals.k == bList {
+						for _, e := range vals.l {
+							b, _ := e.str()
+							if len(b) != 6 {
+								continue
+							}
+							n++
+							key := hx(net.IP(b[:4]).To16()) + "/" + itoa(int(b[4])<<8|int(b[5]))
+							if !a.rec.eps[key] {
+								sc.viol("C11", fmt.Sprintf("get_peers returned an endpoint that was never announced for this infohash: %s (back-to-back get_peers for different infohashes)", net.IP(b[:4]).String()+":"+itoa(int(b[4])<<8|int(b[5]))))
+								return
+							}
+						}
+					}
+					if n != len(a.rec.eps) {
+						sc.viol("C11", fmt.Sprintf("get_peers returned %d of the %d endpoints announced for the infohash (back-to-back get_peers)", n, len(a.rec.eps)))
+						return
+					}
+				}
+			}
+			r.hist("burst-get_peers")
 		}
 	}
 	r.Result.TracesValidated++
